@@ -211,6 +211,11 @@ def do_check(prop, tier):
     }
     if "sim_time_stat" in spec and spec["sim_time_stat"] in stats:
         cov["sim_time_s"] = stats[spec["sim_time_stat"]]
+    if "derive" in spec:
+        try:
+            cov["derived"] = spec["derive"](stats, total_runs)
+        except Exception as e:  # never let reporting break a verdict
+            cov["derived"] = {"error": repr(e)}
     ev = {
         "property_id": prop,
         "tier": tier,
